@@ -88,15 +88,68 @@ Rat(p, q) ==        \* normalise p/q, q # 0
       g == Gcd(Abs(p), Abs(q))
   IN IF p = 0 THEN JNum(0, 1) ELSE JNum((s * p) \div g, (s * q) \div g)
 
-NumLess(a, b) == a.p * b.q < b.p * a.q
-NumLeq(a, b)  == a.p * b.q <= b.p * a.q
-NumAdd(a, b)  == Rat(a.p * b.q + b.p * a.q, a.q * b.q)
-NumNeg(a)     == JNum(-a.p, a.q)
-NumAbs(a)     == JNum(Abs(a.p), a.q)
-NumDivInt(a, n) == Rat(a.p, a.q * n)
+(***************************************************************************)
+(* Neighbouring doubles.  A number may carry a third field u:              *)
+(*   [t |-> "num", p |-> 3, q |-> 10, u |-> 1]   the double one unit in    *)
+(*   the last place ABOVE the double nearest to 3/10 (u < 0: below).        *)
+(* Such numbers are distinct JSON numbers that the library's tolerant '==' *)
+(* (variable.rs:70-90) identifies, while its ordering (partial_cmp on f64) *)
+(* and therefore sort / max / min / the by-functions tell them apart.      *)
+(* u = INEXACT: "some double near p/q" -- the result of floating-point     *)
+(* arithmetic (sum, avg) whose rounding the model does not follow.         *)
+(* Normal form: no u field when u = 0, so every other number is unchanged. *)
+(***************************************************************************)
+INEXACT == 9999
+UOf(a) == IF "u" \in DOMAIN a THEN a.u ELSE 0
+WithU(a, k) == IF k = 0 THEN JNum(a.p, a.q) ELSE [t |-> "num", p |-> a.p, q |-> a.q, u |-> k]
+JNear(p, q, k) == WithU(Rat(p, q), k)
+IsInexact(a) == UOf(a) = INEXACT
+SameBase(a, b) == a.p * b.q = b.p * a.q
+Pow10N(k) == CASE k = 0 -> 1 [] k = 1 -> 10 [] k = 2 -> 100 [] k = 3 -> 1000 [] k = 4 -> 10000 [] k = 5 -> 100000 [] k = 6 -> 1000000
+               [] k = 7 -> 10000000 [] k = 8 -> 100000000 [] k = 9 -> 1000000000
+Dyadic(q) == q \in {1, 2, 4, 8, 16, 32, 64, 128, 256, 512, 1024}
+(* an arithmetic result: exact when every operand was exact and dyadic (binary floating point is exact there) *)
+Rounded(r, exact) == IF exact /\ Dyadic(r.q) THEN r ELSE WithU(r, INEXACT)
+ExactNum(a) == UOf(a) = 0 /\ Dyadic(a.q)
+
+(***************************************************************************)
+(* Large magnitudes.  [t |-> "num", p |-> 11, q |-> 1, e |-> 18] is the    *)
+(* number 11 * 10^18: p has at most 9 digits and is not a multiple of 10,  *)
+(* and the value is at least 10^10 (Digits(p) + e >= 11), beyond every     *)
+(* plain number of the model (|p/q| < 2^31).  Normal form is unique, so    *)
+(* structural equality is numeric equality here too (1e19 = 10000000000000000000). *)
+(***************************************************************************)
+EOf(a) == IF "e" \in DOMAIN a THEN a.e ELSE 0
+IsBig(a) == EOf(a) > 0
+JBig(p, e) == [t |-> "num", p |-> p, q |-> 1, e |-> e]
+Digits(n) == CHOOSE d \in 1..10 : (d = 10 \/ n < Pow10N(d)) /\ (d = 1 \/ n >= Pow10N(d - 1))
+Scale9(n) == n * Pow10N(9 - Digits(n))                     \* n has at most 9 digits
+BigMagLess(a, b) ==                                        \* both big, compared by magnitude
+  LET da == Digits(Abs(a.p)) + a.e  db == Digits(Abs(b.p)) + b.e
+  IN da < db \/ (da = db /\ Scale9(Abs(a.p)) < Scale9(Abs(b.p)))
+BigLess(a, b) ==                                           \* at least one of a, b is big
+  IF IsBig(a) /\ IsBig(b)
+  THEN IF (a.p < 0) # (b.p < 0) THEN a.p < 0 ELSE IF a.p > 0 THEN BigMagLess(a, b) ELSE BigMagLess(b, a)
+  ELSE IF IsBig(a) THEN a.p < 0 ELSE b.p > 0
+
+PlainLess(a, b) == a.p * b.q < b.p * a.q \/ (SameBase(a, b) /\ UOf(a) < UOf(b))
+NumLess(a, b) == IF IsBig(a) \/ IsBig(b) THEN BigLess(a, b) ELSE PlainLess(a, b)
+NumLeq(a, b)  == IF IsBig(a) \/ IsBig(b) THEN a = b \/ BigLess(a, b)
+                 ELSE a.p * b.q < b.p * a.q \/ (SameBase(a, b) /\ UOf(a) <= UOf(b))
+(* the order of a and b is not determined by the model: same base and one of them inexact *)
+NumOrderOpen(a, b) == ~IsBig(a) /\ ~IsBig(b) /\ SameBase(a, b) /\ (IsInexact(a) \/ IsInexact(b))
+(* arithmetic on large magnitudes is outside the model (the caller marks the result open) *)
+NumAdd(a, b)  == IF IsBig(a) \/ IsBig(b) THEN WithU(JInt(0), INEXACT)
+                 ELSE Rounded(Rat(a.p * b.q + b.p * a.q, a.q * b.q), ExactNum(a) /\ ExactNum(b))
+FlipU(k)      == IF k = INEXACT THEN INEXACT ELSE -k
+NumNeg(a)     == IF "u" \in DOMAIN a THEN [a EXCEPT !.p = -a.p, !.u = FlipU(a.u)] ELSE [a EXCEPT !.p = -a.p]
+NumAbs(a)     == IF a.p < 0 THEN NumNeg(a) ELSE a
+NumDivInt(a, n) == IF IsBig(a) THEN WithU(JInt(0), INEXACT) ELSE Rounded(Rat(a.p, a.q * n), ExactNum(a))
 FloorDiv(p, q) == p \div q       \* TLA+ \div rounds toward minus infinity for q > 0
-NumFloor(a)   == JInt(FloorDiv(a.p, a.q))
-NumCeil(a)    == JInt(-FloorDiv(-a.p, a.q))
+(* floor / ceil of a neighbour of an integer depend on the side it lies on; of an inexact integer they are open *)
+NumFloor(a)   == IF IsBig(a) THEN a ELSE IF a.q = 1 /\ UOf(a) < 0 THEN JInt(a.p - 1) ELSE JInt(FloorDiv(a.p, a.q))
+NumCeil(a)    == IF IsBig(a) THEN a ELSE IF a.q = 1 /\ UOf(a) > 0 /\ ~IsInexact(a) THEN JInt(a.p + 1) ELSE JInt(-FloorDiv(-a.p, a.q))
+RoundOpen(a)  == a.q = 1 /\ IsInexact(a)
 
 (***************************************************************************)
 (* Code-point lexicographic order on strings (= UTF-8 byte order).         *)
@@ -146,11 +199,41 @@ RECURSIVE WF(_)
 WF(v) ==
   CASE v.t = "null" -> TRUE
     [] v.t = "bool" -> v.b \in BOOLEAN
-    [] v.t = "num"  -> v.q > 0 /\ Gcd(Abs(v.p), v.q) = 1
+    [] v.t = "num"  -> v.q > 0 /\ Gcd(Abs(v.p), v.q) = 1 /\ ("u" \in DOMAIN v => v.u # 0)
+                       /\ ("e" \in DOMAIN v => v.q = 1 /\ v.p # 0 /\ v.p % 10 # 0 /\ v.e >= 1 /\ Digits(Abs(v.p)) + v.e >= 11)
     [] v.t = "str"  -> \A i \in DOMAIN v.s : v.s[i] \in 0..1114111
     [] v.t = "arr"  -> \A i \in DOMAIN v.a : WF(v.a[i])
     [] v.t = "obj"  -> SortedKeys(v) /\ \A i \in DOMAIN v.o : WF(v.o[i].v)
     [] OTHER -> FALSE
+
+(***************************************************************************)
+(* EraseU: the value with every number replaced by its base.  Two values   *)
+(* with the same erasure are what the tolerant '==' may identify.          *)
+(* Matches(e, o): the observed value o is the expected value e, where an   *)
+(* INEXACT expected number matches every observed neighbour of its base.   *)
+(***************************************************************************)
+RECURSIVE EraseU(_), HasInexact(_), HasNear(_), Matches(_, _)
+EraseU(v) == CASE v.t = "num" -> IF "u" \in DOMAIN v THEN JNum(v.p, v.q) ELSE v
+               [] v.t = "arr" -> JArr([i \in DOMAIN v.a |-> EraseU(v.a[i])])
+               [] v.t = "obj" -> JObj([i \in DOMAIN v.o |-> JMem(v.o[i].k, EraseU(v.o[i].v))])
+               [] OTHER -> v
+HasInexact(v) == CASE v.t = "num" -> "p" \in DOMAIN v /\ IsInexact(v)
+                   [] v.t = "arr" -> \E i \in DOMAIN v.a : HasInexact(v.a[i])
+                   [] v.t = "obj" -> \E i \in DOMAIN v.o : HasInexact(v.o[i].v)
+                   [] OTHER -> FALSE
+HasNear(v) == CASE v.t = "num" -> "p" \in DOMAIN v /\ (UOf(v) # 0 \/ IsBig(v))
+                [] v.t = "arr" -> \E i \in DOMAIN v.a : HasNear(v.a[i])
+                [] v.t = "obj" -> \E i \in DOMAIN v.o : HasNear(v.o[i].v)
+                [] OTHER -> FALSE
+Matches(e, o) ==
+  IF e.t # o.t THEN FALSE
+  ELSE CASE e.t = "num" -> IF "p" \notin DOMAIN e \/ "p" \notin DOMAIN o THEN e = o      \* numbers outside the modelled domain
+                           ELSE e.p = o.p /\ e.q = o.q /\ EOf(e) = EOf(o) /\ (IsInexact(e) \/ UOf(e) = UOf(o))
+         [] e.t = "arr" -> Len(e.a) = Len(o.a) /\ \A i \in DOMAIN e.a : Matches(e.a[i], o.a[i])
+         [] e.t = "obj" -> Len(e.o) = Len(o.o) /\ \A i \in DOMAIN e.o : e.o[i].k = o.o[i].k /\ Matches(e.o[i].v, o.o[i].v)
+         [] OTHER -> e = o
+(* '==' of the library on l and r is not determined by the model: equal up to neighbouring doubles, but not identical *)
+EqOpen(l, r) == EraseU(l) = EraseU(r) /\ (l # r \/ HasInexact(l))
 
 (***************************************************************************)
 (* Bounded universes.  Atoms + arrays/objects of bounded width over them.  *)
